@@ -284,6 +284,17 @@ func c06Programs(tier string) []*Spec {
 			}
 		}
 	}
+	// a burst of immediate changes to one bar while the heap manager's request queue is short (as long as the number of
+	// bars): the requests may pile up, but they take effect in the order of the calls and before the next frame
+	for _, k := range []string{"setprio", "prio"} {
+		sp := &Spec{Name: "c06-burst-short-queue-" + k, Refresh: "manual", Q: 2}
+		sp.Bars = []BarSpec{{Total: 1}, {Total: 1}}
+		sp.Main = []Op{{K: "add", B: 0}, {K: "add", B: 1}, {K: "refresh"}, {K: "refresh"},
+			{K: k, B: 0, N: 5}, {K: k, B: 0, N: 6}, {K: k, B: 0, N: 7}, {K: k, B: 0, N: 0}, {K: "refresh"}, {K: "refresh"},
+			{K: k, B: 1, N: -3}, {K: k, B: 1, N: -2}, {K: k, B: 1, N: 9}, {K: "refresh"}, {K: "refresh"},
+			{K: "incr", B: 0, N: 1}, {K: "incr", B: 1, N: 1}, {K: "refresh"}, {K: "refresh"}}
+		out = append(out, sp)
+	}
 	// five bars, one of them added with an explicit priority between two changes
 	{
 		sp := &Spec{Name: "c06-double-change-add", Refresh: "manual", Q: -1}
@@ -347,6 +358,12 @@ func init() {
 		Items: func(tier string) []Item {
 			var items []Item
 			for _, sp := range c06Programs(tier) {
+				if strings.Contains(sp.Name, "short-queue") {
+					// (under the base strategy that lets the oldest threads run first the heap manager lags behind
+					// its clients, which is what fills its queue)
+					items = append(items, specItems("C06", sp, 1, allStrats, nil, c06Oracle)...)
+					continue
+				}
 				items = append(items, specItems("C06", sp, 1, []int{mcrt.StratFIFO, mcrt.StratNewest}, nil, c06Oracle)...)
 			}
 			return items
